@@ -10,8 +10,8 @@ use super::{um_model, um_oracle};
 use crate::run::{ImplOut, Suite};
 
 /// qualifiers that discriminate between mechanisms and therefore stay in the signature
-const KEEP: [&str; 13] = [
-    "-failed", "-lang",
+const KEEP: [&str; 14] = [
+    "-failed", "-lang", "-arrays",
     "-into-empty", "-over-existing", "-over-spill", "-over-array", "-over-empty-styled", "-hidden",
     "-full-col", "-full-row", "-cells", "-copy", "-cut",
 ];
